@@ -255,7 +255,7 @@ func runC29(c *eng.Ctx) {
 	// In VectorBinop a matched pair is recorded (one-to-one: signature seen; many-to-one: result metric seen) before a
 	// filtering comparison may drop it: otherwise "multiple matches" would be raised or not depending on the values.
 	{
-		vb := c.Fn(Q + "evaluator.VectorBinop").Closure("doBinOp", p.Call(Q+"resultMetric"))
+		vb := c.Fn(Q+"evaluator.VectorBinop").Closure("doBinOp", p.Call(Q+"resultMetric"))
 		drop := eng.Return("return of a filtered-out sample", func(g *eng.Graph, rs *ast.ReturnStmt) bool {
 			cs := vb.CondsOf(rs)
 			return len(cs) == 1 && cs[0] == "!keep && !returnBool=T"
@@ -267,7 +267,9 @@ func runC29(c *eng.Ctx) {
 		vb.Has("R4", seen, 2)
 		vb.Dom("R4", seen, drop)
 		vb.Dom("R4", p.Call(Q+"resultMetric"), drop)
-		vb.Only("R4", eng.Node("enh.Out = append(enh.Out, Sample{…})", func(g *eng.Graph, n ast.Node) bool { return strings.HasPrefix(nodeText(n), "enh.Out = append(enh.Out, Sample{") }),
+		vb.Only("R4", eng.Node("enh.Out = append(enh.Out, Sample{…})", func(g *eng.Graph, n ast.Node) bool {
+			return strings.HasPrefix(nodeText(n), "enh.Out = append(enh.Out, Sample{")
+		}),
 			"emits the pair only when it was kept or a bool result is wanted", func(l eng.Loc) bool { return vb.UnderCondFalse(l, "!keep && !returnBool") })
 	}
 }
